@@ -5,6 +5,7 @@ import (
 	"go/ast"
 	"go/token"
 	"go/types"
+	"sort"
 	"strings"
 
 	"golang.org/x/tools/go/ssa"
@@ -49,6 +50,79 @@ func checkC20(c *Ctx, r *Report) {
 	c20R2(c, r)
 	c20R3(c, r)
 	c20R4(c, r)
+	c20R5(c, r)
+}
+
+// c20R5: sort.Slice(x, less): the less closure indexes x and nothing else with its two index parameters
+// (a closure indexing another slice leaves x unsorted: the SVCB parameter comparison would depend on the order).
+func c20R5(c *Ctx, r *Report) {
+	r.rule("C20.R5.sort-own-slice", 3, "the less function of every sort.Slice(x, ...) compares elements of x itself")
+	n := 0
+	var names []string
+	for name := range c.decls {
+		names = append(names, name)
+	}
+	sort.Strings(names)
+	for _, name := range names {
+		fd := c.decls[name]
+		if fd.Body == nil {
+			continue
+		}
+		ast.Inspect(fd.Body, func(nd ast.Node) bool {
+			call, ok := nd.(*ast.CallExpr)
+			if !ok {
+				return true
+			}
+			cn := c.calleeName(call)
+			if cn != "sort.Slice" && cn != "sort.SliceStable" {
+				return true
+			}
+			if len(call.Args) != 2 {
+				return true
+			}
+			lit, ok := ast.Unparen(call.Args[1]).(*ast.FuncLit)
+			if !ok {
+				return true
+			}
+			n++
+			construct := fmt.Sprintf("%s:%s(%s)#%d", name, cn, types.ExprString(call.Args[0]), n)
+			target := identObj(c, call.Args[0])
+			var params []types.Object
+			for _, f := range lit.Type.Params.List {
+				for _, id := range f.Names {
+					params = append(params, c.Info.Defs[id])
+				}
+			}
+			var problems []string
+			indexed := 0
+			ast.Inspect(lit.Body, func(n2 ast.Node) bool {
+				ix, ok := n2.(*ast.IndexExpr)
+				if !ok {
+					return true
+				}
+				io := identObj(c, ix.Index)
+				isParam := false
+				for _, p := range params {
+					if io != nil && io == p {
+						isParam = true
+					}
+				}
+				if !isParam {
+					return true
+				}
+				indexed++
+				if target == nil || identObj(c, ix.X) != target {
+					problems = append(problems, fmt.Sprintf("%s: the comparison indexes %s, not the slice being sorted (%s)", c.pos(ix.Pos()), types.ExprString(ix.X), types.ExprString(call.Args[0])))
+				}
+				return true
+			})
+			if indexed == 0 {
+				problems = append(problems, "the less function does not index the slice with its parameters")
+			}
+			r.check(len(problems) == 0, "C20.R5.sort-own-slice", construct, c.pos(call.Pos()), "less indexes the sorted slice", "%s", strings.Join(problems, "; "))
+			return true
+		})
+	}
 }
 
 func c20R2(c *Ctx, r *Report) {
